@@ -338,7 +338,7 @@ impl Evaluator {
             Err(p) => {
                 let loc = mc_core::last_panic_location();
                 let site = loc.rsplit('/').next().unwrap_or("").to_string();
-                l.violation(format!("panic@{site}"), format!("validate panicked: {p} at {loc}"), case());
+                crate::util::violation(l, format!("panic@{site}"), format!("validate panicked: {p} at {loc}"), case());
                 l.class("panicked");
                 return;
             }
@@ -408,13 +408,13 @@ impl Evaluator {
                 let f = match &facts {
                     Ok(f) => f,
                     Err(e) => {
-                        l.violation("accepted:unparseable", format!("accepted input that the independent parser rejects: {e}"), case());
+                        crate::util::violation(l, "accepted:unparseable", format!("accepted input that the independent parser rejects: {e}"), case());
                         return;
                     }
                 };
                 let breaks = reparse::rule_breaks(f, &self.lim);
                 for b in &breaks {
-                    l.violation(format!("accepted:{b}"), format!("validate accepted a module that breaks the rule `{b}` (all broken rules: {breaks:?})"), case());
+                    crate::util::violation(l, format!("accepted:{b}"), format!("validate accepted a module that breaks the rule `{b}` (all broken rules: {breaks:?})"), case());
                 }
                 if let Some(v) = &lattice_verdict {
                     for s in &v.silent {
@@ -440,7 +440,7 @@ impl Evaluator {
                     if out.len() <= 4096 {
                         c["output_hex"] = json!(mc_core::hex(&out));
                     }
-                    l.violation(k, dsc, c);
+                    crate::util::violation(l, k, dsc, c);
                 }
             }
         }
